@@ -1286,6 +1286,24 @@ func (e *specEnv) specFunc(sf *SpecFunc, args []SExpr) specVal {
 // resolveFuncRef resolves `f`, `pkg.f` or `pkg/sub.f` written in a contract to a function of the program.
 func (e *specEnv) resolveFuncRef(x SExpr) *ssa.Function {
 	v := e.v
+	var txt string
+	if lit, isLit := x.(SLit); isLit && lit.Kind == "string" {
+		txt = lit.Val // a function key written as a string, e.g. "dsl.(Visitor).VisitChildren"
+		if f := v.w.Funcs[txt]; f != nil {
+			return f
+		}
+		// generic instances: unique prefix match
+		var found *ssa.Function
+		for k, f := range v.w.Funcs {
+			if strings.HasPrefix(k, txt+"[") {
+				if found != nil {
+					return nil
+				}
+				found = f
+			}
+		}
+		return found
+	}
 	txt, ok := exprToTypeText(x)
 	if !ok {
 		return nil
